@@ -12,7 +12,6 @@ import (
 	"os"
 	"runtime"
 	"runtime/debug"
-	"runtime/pprof"
 	"sort"
 	"sync"
 
@@ -27,14 +26,10 @@ func main() {
 		// UpdateNodeLists allocates dozens of tiny maps/slices per call while the live heap is a
 		// few MB: with the default pacer the collector would run continuously and the 16 workers
 		// would fight over the allocator. A never-touched pointer-free ballast makes the pacer
-		// collect once per ~GiB of garbage instead (pages are then recycled, not faulted in).
-		ballast = make([]byte, 1<<30)
+		// collect once per ~100 MiB of garbage instead (small enough that pages are recycled:
+		// first-touch page faults are very expensive in the sandbox VM).
+		ballast = make([]byte, 96<<20)
 		debug.SetGCPercent(100)
-		if pf := os.Getenv("VERIF_PPROF"); pf != "" {
-			f, _ := os.Create(pf)
-			pprof.StartCPUProfile(f)
-			defer pprof.StopCPUProfile()
-		}
 		switch c.Prop {
 		case "C12", "C14":
 		default:
@@ -112,6 +107,30 @@ func run(c *mc.Ctx, slices []slice) {
 		expected += tasks[i].size(alpha)
 	}
 	c.Set("planned_evaluations", expected)
+	if os.Getenv("VERIF_PLAN") != "" {
+		by := map[string]int64{}
+		nt := map[string]int64{}
+		for i := range tasks {
+			k := fmt.Sprintf("%s total=%02d %s", tasks[i].sl.name, tasks[i].cf.total(), *tasks[i].spec)
+			if tasks[i].rule != nil {
+				k += " " + tasks[i].rule.seeds.String()
+			} else {
+				k = tasks[i].sl.name + " under-populated"
+			}
+			by[k] += tasks[i].size(alpha)
+			nt[k]++
+		}
+		ks := []string{}
+		for k := range by {
+			ks = append(ks, k)
+		}
+		sort.Strings(ks)
+		for _, k := range ks {
+			fmt.Fprintf(os.Stderr, "PLAN %-60s tasks=%7d evals=%d\n", k, nt[k], by[k])
+		}
+		fmt.Fprintf(os.Stderr, "PLAN total tasks=%d evals=%d\n", len(tasks), expected)
+		os.Exit(0)
+	}
 	capped := false
 	var capMu sync.Mutex
 	mc.Par(len(tasks), func(i int) {
